@@ -1,4 +1,5 @@
 """C07 - number tests report exact inclusive tail probabilities (Poisson, NBD, empirical)."""
+import datetime
 import math
 
 import os
@@ -8,6 +9,8 @@ import scipy.special as sp
 
 from .. import fixtures, monitor
 from ..core import digest, scratch_dir
+
+UTC = datetime.timezone.utc
 
 META = {
     "title": "Number tests: exact inclusive tails",
@@ -21,7 +24,7 @@ META = {
                     "absolute tolerance 1e-9 on tail probabilities (the implementation's 1-cdf form has absolute accuracy)"],
     "deciding": ["poisson_evaluations._number_test_ndarray", "binomial_evaluations._nbd_number_test_ndarray", "stats.get_quantiles"],
 }
-META["added"] = "Added: re-scaling histories with total reads in between, array-valued scale factors (per cell, per magnitude bin, full table), observed counts above 16384 through the public wrappers, in-place mutation of yielded catalogs before the catalog N-test. forecasts streamed from files with placeholder rows / id gaps, NBD variance ratios 1+1e-9..1e9. catalogs with events outside the forecast's magnitude range, scaled T-test before the N-test, reference total snapshotted before any library call. filtered lazy forecasts after earlier passes, integer-dtype rate tables."
+META["added"] = "Added: re-scaling histories with total reads in between, array-valued scale factors (per cell, per magnitude bin, full table), observed counts above 16384 through the public wrappers, in-place mutation of yielded catalogs before the catalog N-test. forecasts streamed from files with placeholder rows / id gaps, NBD variance ratios 1+1e-9..1e9. catalogs with events outside the forecast's magnitude range, scaled T-test before the N-test, reference total snapshotted before any library call. filtered lazy forecasts after earlier passes, integer-dtype rate tables. the factor in force is tracked by the harness (not read back from the forecast), forecasts scaled to a test date in leap and ordinary years."
 MANIFEST = {
     "technique": "runtime post-conditions on the real number-test primitives and public tests vs independent incomplete-gamma/beta and explicit pmf-sum oracles; identity and monotonicity checkers over a parameter grid",
     "level_text": "Each call of the Poisson / NBD / empirical number-test primitives (2e4 quick, 1e6 thorough grid points plus end-to-end runs through the three public tests on generated forecasts and catalogs, including scaled forecasts) is checked against tails computed by incomplete gamma/beta functions and explicit pmf summation; delta1+delta2 = 1+pmf and monotonicity in the mean are checked across the grid.",
@@ -187,20 +190,37 @@ def _small_setup(total, n_obs, rng, scale=None, int_rates=False):
     w = rng.uniform(0.1, 1.0, (4, 3))
     data = w / w.sum() * total
     fore = fixtures.gridded_forecast(data, reg, mags)
+    factor = 1.0          # the factor last passed to scale(): kept by the harness, never read back from the forecast object
     if scale is not None:
         fore = fixtures.gridded_forecast(data / scale, reg, mags)
         fore.scale(scale)
+        factor = scale
     if int_rates:
         # a rate table of INTEGER dtype (counts per bin) scaled by a fraction: the rates in force are table * factor, not truncated
         from csep.core.forecasts import GriddedForecast
         idata = rng.integers(1, 13, (4, 3)).astype(numpy.int64)
         fore = GriddedForecast(start_time=fore.start_time, end_time=fore.end_time, data=idata, region=reg, magnitudes=mags, name="int")
-        fore.scale(float(rng.choice([0.5, 0.3, 0.25])))
+        factor = float(rng.choice([0.5, 0.3, 0.25]))
+        fore.scale(factor)
     cells = rng.integers(0, 4, n_obs)
     lons, lats = fixtures.events_in_cells(reg, cells, rng)
     # n_obs is the number of events IN THE CATALOG: some of them lie below the forecast's lowest magnitude edge or far above its last one
     cat = fixtures.catalog(lons, lats, rng.choice([5.0, 5.05, 5.2, 4.2, 4.9499, 8.7], n_obs), region=reg)
+    fore._verif_factor = factor
     return fore, cat
+
+
+def _dec_year(d):
+    # position of an instant within its calendar year, from date arithmetic only
+    y0 = datetime.datetime(d.year, 1, 1, tzinfo=d.tzinfo)
+    y1 = datetime.datetime(d.year + 1, 1, 1, tzinfo=d.tzinfo)
+    return d.year + (d - y0).total_seconds() / (y1 - y0).total_seconds()
+
+
+# (start, end, test date) triples for scale_to_test_date: leap years, test dates before / on / after the leap day, periods across a year boundary
+TEST_DATES = [((2012, 1, 1), (2013, 1, 1), (2012, 6, 29)), ((2012, 1, 1), (2013, 1, 1), (2012, 2, 14)), ((2024, 1, 1), (2025, 1, 1), (2024, 10, 31)),
+              ((2011, 12, 1), (2012, 4, 1), (2012, 3, 10)), ((2010, 1, 1), (2011, 1, 1), (2010, 7, 4)), ((2012, 2, 1), (2012, 5, 1), (2012, 2, 29)),
+              ((2019, 11, 15), (2020, 11, 15), (2020, 3, 1)), ((2000, 1, 1), (2005, 1, 1), (2004, 12, 30))]
 
 
 def ex_e2e_poisson(ctx, total, n_obs, scale=None, seed=0, rescale_history=None):
@@ -219,6 +239,17 @@ def ex_e2e_poisson(ctx, total, n_obs, scale=None, seed=0, rescale_history=None):
                 shp = {"percell": (fore._data.shape[0], 1), "permag": (fore._data.shape[1],), "full": fore._data.shape}[f_]
                 f_ = ra.uniform(0.2, 3.0, shp)
             fore.scale(f_)
+    last = fore._verif_factor
+    if rescale_history:
+        last = f_
+    if seed % 11 == 4 and not rescale_history:
+        # the forecast is scaled to a test date: the factor is the fraction of the forecast period (in decimal years, the test counting to the
+        # end of the given day) that has elapsed
+        st, en, td = [datetime.datetime(*t_, tzinfo=UTC) for t_ in TEST_DATES[(seed // 11) % len(TEST_DATES)]]
+        fore.start_time, fore.end_time = st, en
+        fore.scale_to_test_date(td)
+        last = (_dec_year(td + datetime.timedelta(days=1)) - _dec_year(st)) / (_dec_year(en) - _dec_year(st))
+        ctx.mon("history:scaled-to-test-date", 1)
     if seed % 5 == 3 and n_obs and not rescale_history:
         # history: a scaled-rates T-test (per-day rates over the forecast horizon) ran on the same forecast object before the N-test
         mags_ = fore.magnitudes
@@ -233,7 +264,7 @@ def ex_e2e_poisson(ctx, total, n_obs, scale=None, seed=0, rescale_history=None):
     if not ok:
         ctx.violate("poisson number_test raised", case, observed=repr(res), tb=tb, tags={"law": "poisson", "e2e": True})
         return
-    mu = float(math.fsum((base * fore._scale).ravel().tolist()))
+    mu = float(math.fsum((base * last).ravel().tolist()))
     ge, le, pmf = pois_tails(mu, n_obs)
     tags = {"law": "poisson", "e2e": True, "scaled": scale is not None, "n_zero": n_obs == 0, "rescale_history": bool(rescale_history), "n_obs_large": n_obs > 16384,
             "array_factor": bool(rescale_history) and any(isinstance(f_, str) for f_ in rescale_history)}
